@@ -37,10 +37,14 @@ RULE = (
     '(pv.checks.c01.build, MOD switched off) with reassignment, IF blocks and intrinsic functions. refactor: one refactoring r from mu_reference_model, make_declarative, '
     'cleanup_model, greekify_model, rename_symbols(fresh names for parameters/rvs/variables), convert_model generic / '
     'generic->nonmem, unload/load_dataset, remove_unused_parameters_and_rvs, create/split_joint_distribution, '
-    'replace_fixed_thetas, replace_non_random_rvs; >=3 sample points per case; compared: dependent variables, every assigned '
-    'symbol that still exists (final value), ODE right-hand sides / doses / lag time / bioavailability per compartment. Non-trivial = M has a reassigned symbol, a '
+    'replace_fixed_thetas, replace_non_random_rvs; a quarter of the cases are histories r2(t(r1(M))) from a scenario table '
+    '(add_bioavailability / add_lag_time / set_zero_order_absorption then a substitution-based refactoring; mu_reference_model, '
+    'remove/add IIV, mu_reference_model again; ...); >=3 sample points per case; compared: dependent variables, every assigned '
+    'symbol that still exists (final value; only cleanup_model and the NONMEM conversion may drop a symbol), ODE right-hand sides '
+    '/ doses / lag time / bioavailability per compartment (an undefined symbol there after r is a violation). Non-trivial = M has a reassigned symbol, a '
     'Piecewise definition or an ODE system AND r changed the statements. solve_ode: linear 1-2 compartment (+depot) systems '
-    'with bolus dose, optional bioavailability/lag/infusion (refusals counted); non-trivial = solved. evaluators: non-ODE '
+    'with bolus dose, optional bioavailability/lag/infusion (refusals counted); non-trivial = solved. evaluators (half of the '
+    'dataset cases on models WITH initial individual estimates that differ from the explicitly passed etas): non-ODE '
     'models (generated $PRED with optional reassigned Y, pheno_linear, closed-form solved corpus models); non-trivial = '
     'model has a reassigned symbol or Piecewise and at least one random effect. Distinct = hash of (model statements, r).'
 )
@@ -947,8 +951,40 @@ def check_consistency(rname, m2):
         )
 
 
+# histories that make the attributes of the ODE system / an earlier refactoring matter: (prior steps, refactoring)
+SCENARIOS = [
+    (['add_bioavailability'], 'cleanup_model'),
+    (['add_bioavailability'], 'rename'),
+    (['add_bioavailability'], 'greekify'),
+    (['add_lag_time'], 'cleanup_model'),
+    (['add_lag_time'], 'rename'),
+    (['set_zero_order_absorption'], 'cleanup_model'),
+    (['set_zero_order_absorption'], 'rename'),
+    (['remove_iiv_mu_reference_add_iiv'], 'mu_reference_model'),
+    (['mu_reference_then_add_iiv'], 'mu_reference_model'),
+    (['remove_iiv_mu_reference_add_iiv'], 'make_declarative'),
+    (['mu_reference_model'], 'cleanup_model'),
+    (['make_declarative', 'add_covariate_effect'], 'mu_reference_model'),
+]
+
+
+def apply_scenario(spec):
+    sc = spec.get('scen')
+    if sc is None:
+        return spec
+    try:
+        prior, r = SCENARIOS[int(sc) % len(SCENARIOS)]
+        a = int(spec.get('a') or 0)
+    except (TypeError, ValueError):
+        return spec
+    return dict(spec, prior=[[p, a + i] for i, p in enumerate(prior)], r=r)
+
+
 def run_refactor(spec):
+    spec = apply_scenario(spec)
     m, labels = build_model(spec)
+    if spec.get('scen') is not None:
+        labels.append('scenario')
     classes = list(labels)
     rname, fn = REFACS[_idx(REFACS, spec.get('r'), 5 * _mix(spec) + 1)]
     classes.append('r:' + rname)
@@ -1060,7 +1096,19 @@ def _gen_specs():
 
 PRED_SPEC = _gen_specs()
 
-REFACTOR_SPEC = st.fixed_dictionaries(
+SCENARIO_SPEC = st.fixed_dictionaries(
+    dict(
+        src=st.fixed_dictionaries(dict(kind=st.just('corpus'), name=st.sampled_from(list(range(28))))),
+        scen=st.sampled_from(list(range(len(SCENARIOS)))),
+        prior=st.just([]),
+        r=st.just(0),
+        a=st.integers(0, 200),
+        ren=st.lists(st.integers(0, 200), min_size=1, max_size=6),
+        k=st.integers(0, 40),
+    )
+)
+
+GENERAL_REFACTOR_SPEC = st.fixed_dictionaries(
     dict(
         src=st.one_of(
             st.fixed_dictionaries(dict(kind=st.just('corpus'), name=st.sampled_from(list(range(28))))),
@@ -1944,7 +1992,7 @@ def selfcheck():
 
 
 SUBCHECKS = [
-    SubCheck('refactor', lambda: REFACTOR_SPEC, isolated(run_refactor), quick=1000, thorough=24000, quick_time=240, thorough_time=1500),
+    SubCheck('refactor', lambda: st.one_of(GENERAL_REFACTOR_SPEC, GENERAL_REFACTOR_SPEC, GENERAL_REFACTOR_SPEC, SCENARIO_SPEC), isolated(run_refactor), quick=1000, thorough=24000, quick_time=240, thorough_time=1500),
     SubCheck('solve_ode', lambda: SOLVE_SPEC, run_solve_ode, quick=96, thorough=1280, quick_time=240, thorough_time=1500),
     SubCheck('evaluators', lambda: EVAL_SPEC, isolated(run_evaluators), quick=480, thorough=12000, quick_time=240, thorough_time=1500),
 ]
